@@ -186,6 +186,27 @@ def list_dot_build(root):
     return out
 
 
+def manifest_owners(root):
+    """{blob rel path: source path relative to root (or absolute for std files)} from manifest.toml."""
+    own = {}
+    try:
+        txt = open(os.path.join(root, ".build/cache/manifest.toml")).read()
+    except OSError:
+        return own
+    cur = None
+    for line in txt.splitlines():
+        m = re.match(r'^\[files\."(.*)"\]$', line)
+        if m:
+            cur = m.group(1)
+            if cur.startswith(root.rstrip("/") + "/"):
+                cur = cur[len(root.rstrip("/")) + 1:]
+            continue
+        m = re.match(r'^(fragment|diagnostics) = "([^"]+)"', line)
+        if m and cur:
+            own[".build/cache/" + m.group(2)] = f"{m.group(1)} of {cur}"
+    return own
+
+
 def manifest_roles(root):
     """{blob rel path: 'fragment'|'diagnostics'} from manifest.toml (text scan, no TOML dependency)."""
     roles = {}
@@ -273,12 +294,16 @@ def apply_damage(root, rel, kind, rng, roles):
         put(data[:8] + b"\0" * (n - 8))
         return "payload zero-filled"
     if kind == "swap_blob":
-        others = sorted(p for p in roles if p != rel and os.path.isfile(os.path.join(root, p)))
+        owners = manifest_owners(root)
+        others = sorted((p for p in roles if p != rel and os.path.isfile(os.path.join(root, p))), key=lambda p: owners.get(p, p))
         if not others:
             return None
-        o = rng.pick(others)
+        want = getattr(rng, "want_other", None)
+        o = next((p for p in others if owners.get(p) == want), None) if want else None
+        if o is None:
+            o = rng.pick(others)
         put(open(os.path.join(root, o), "rb").read())
-        return f"replaced by the valid blob of another entry ({roles.get(o)}; own role {roles.get(rel)})"
+        return f"[{owners.get(rel)}] replaced by the valid blob [{owners.get(o)}]"
     if kind == "garbage_text":
         put(b"\xff\xfe not a timing file\nname notanumber\n" + data[:n // 2])
         return "garbage text"
@@ -598,6 +623,21 @@ def crash_faults(C, rng, H, files, files0, history, st, argv, pre_edit_state, bu
                 C.bump("controls_diverged_(C04_matter)")
         return controls[variant]
 
+    def control_all(variant):
+        """Mismatches that need no crash: the step completed normally, or the step never ran (a kill before the first
+        effect).  What either shows is an incremental-build matter (C04), not damage done by the crash."""
+        keys, f2, code = control(variant)
+        k2 = "skip:" + variant
+        if k2 not in controls:
+            restore(C.snap, C.inc)
+            f2s = apply_variant(C, variant, files, pre_edit_state, st["edits"], extra_edits)
+            r, c, mm = C.judge(f2s, recovery)
+            controls[k2] = {mm_key(m) for m in mm}
+            C.bump("control_runs")
+            if mm:
+                C.bump("controls_diverged_(C04_matter)")
+        return keys | controls[k2], f2, code
+
     used = 0
     hot = {e["path"] for e in st["edits"] if e["op"] in ("rm_output", "edit_output")}
     points = pick_points(rng, events, budget, hot)
@@ -605,7 +645,7 @@ def crash_faults(C, rng, H, files, files0, history, st, argv, pre_edit_state, bu
         ev = events[pi]
         torn = ev["sys"] in ("write", "writev", "pwrite64") and path_class(ev["path"]) in ("out_sv", "out_map", "filelist", "info", "lockfile") and rng.chance(1, 3)
         variant = variant_for(rng)
-        ctrl_keys, f2c, clean_code = control(variant)
+        ctrl_keys, f2c, clean_code = control_all(variant)
         restore(C.snap, C.inc)
         if ev["stable"]:
             rc2, out2, err2 = strace_run(C.inc, C.home, argv, C.trace, inject=(ev["sys"], ev["pk"]), only_path=os.path.join(C.inc, ev["path"]))
@@ -827,6 +867,13 @@ def replay_case(rp, scratch, template_home):
         rng = Rng(0)
         rng.s = fault.get("rng_s", rng.s)
         roles = manifest_roles(C.inc)
+        owners = manifest_owners(C.inc)
+        m2 = re.match(r"^\[(.*?)\] replaced by the valid blob \[(.*?)\]$", fault.get("desc") or "")
+        if m2:       # blob names differ from run to run (fragment bytes are not reproducible): address blobs by their owner
+            byowner = {v: k for k, v in owners.items()}
+            if m2.group(1) in byowner:
+                fault = dict(fault, file=byowner[m2.group(1)])
+            rng.want_other = m2.group(2)
         notes.append("damage re-applied: " + str(apply_damage(C.inc, fault["file"], fault["kind"], rng, roles)))
     f2 = apply_variant(C, rp.get("variant", "none"), files, pre_edit_state, [], rp.get("extra_edits", []))
     r, c, mm = C.judge(f2, rp.get("recovery", ["build"]))
